@@ -291,6 +291,20 @@ func (s *IndexedState) add(ctx *Context, id string, x Map) (string, error) {
 		return id, err
 	}
 	if rule != nil {
+		if _, scheduled := rule["schedule"]; !scheduled && GetRulePatterns(ctx, rule) == nil {
+			return "", NewSyntaxError("No 'when' in rule.")
+		}
+	}
+	if old, have := s.IdToFact[id]; have {
+		// Whatever is stored under this id is about to be replaced: if it is a rule,
+		// its pattern (not the new rule's) has to leave the rule index.
+		if oldRule, _ := ExtractRule(ctx, old, false); oldRule != nil {
+			if err = s.unindexRule(ctx, id, oldRule); err != nil {
+				return "", err
+			}
+		}
+	}
+	if rule != nil {
 		// ToDo: Metric(ctx, "RuleUpdated", "location", s.Name, "ruleId", id)
 		Log(DEBUG, ctx, "IndexedState.add", "state", s.Name, "rule", rule, "ruleId", id)
 		if _, scheduled := rule["schedule"]; !scheduled {
@@ -356,13 +370,6 @@ func (s *IndexedState) indexRule(ctx *Context, id string, rule map[string]interf
 	patterns := GetRulePatterns(ctx, rule)
 	if nil == patterns {
 		return NewSyntaxError("No 'when' in rule.")
-	}
-
-	_, have := s.IdToFact[id]
-	if have {
-		if err := s.unindexRule(ctx, id, rule); err != nil {
-			return err
-		}
 	}
 
 	for _, m := range patterns {
